@@ -164,6 +164,7 @@ RunOut judge_case(mc::Case & c, const PSM & q, int mi, int pt, int ft, const Nod
   };
   c.param("delta", st.s.delta);
   c.param("wellcond", P.wellcond ? 1 : 0);
+  c.param("log2_res_scale", P.log2_res_scale);
   c.param("ptol", TOLS[pt]);
   c.param("ftol", TOLS[ft]);
   c.param("max_iter", double(m));
@@ -208,6 +209,8 @@ RunOut judge_case(mc::Case & c, const PSM & q, int mi, int pt, int ft, const Nod
   }
   // ---- iteration bound and status contract
   c.require("iter <= max_iter", A.iter <= m);
+  if (!A.overloads_agree && mc::replaying()) printf("  overloads: %s\n", A.overloads_note.c_str());
+  c.require("the overloads without a callback are the same solve (status, iter, arguments, strategy state identical)", A.overloads_agree);
   c.require("callbacks <= iter + 1", A.tr.size() <= size_t(A.iter) + 1);
   if (A.status != 2) {
     c.outcome(A.iter == m ? "converged in the last allowed iteration" : "converged before the bound");
